@@ -130,12 +130,18 @@ def check_function(func_node, spec) -> bool:
     fn = tree.body[0]
     if not isinstance(fn, ast.FunctionDef):
         return fail("no function")
-    body = list(fn.body)
+    body = [node for node in fn.body if not isinstance(node, ast.Pass)]  # an emptied function is rendered as `pass`
     pos = 0
     bound: set = set()
     for idx, st in enumerate(spec):
+        if st.get("optional") and not st["asserts"]:
+            # a side-effect-free literal statement that carries no oracle may be removed altogether
+            nxt = body[pos] if pos < len(body) else None
+            val = nxt.value if isinstance(nxt, (ast.Assign, ast.AnnAssign, ast.Expr)) else None
+            if val is None or ast.unparse(val) != ast.unparse(ast.parse(st["call"], mode="eval").body):
+                continue
         if pos >= len(body):
-            return fail(f"statement {idx} missing from {code!r}")
+            return fail(f"statement {idx} ({st['call']}) with its assertions {st['asserts']!r} is missing from {code!r}")
         node = body[pos]
         pos += 1
         if st["raises"] == "raises":
@@ -225,4 +231,79 @@ def run_exc(post, noxfail, shape, b0, s0, b1, r1, kind) -> bool:
         return fail(f"export raised {type(e).__name__}: {e}")
     if (spec[1]["raises"] == "raises") != (ValueError in used):
         return fail(f"used exception types {used} do not match the rendering {spec[1]['raises']}")
+    return check_function(func, spec)
+
+
+# ------------------------------------------------------------------ literal statements
+LITERALS = (("42", int), ("-2.5", float), ("'abc'", str), ("[1, 'a', -2.5]", list), ("{'k': (1, True)}", dict), ("None", type(None)))
+LIT_NODES = {}
+for _k, (_src, _tp) in enumerate(LITERALS):
+    for _v in ("v0", "v1"):
+        LIT_NODES[_k, _v] = _parse(f"{_v} = {_src}")
+_LIT_VALUES = (42, -2.5, "abc", None, None, None)
+
+
+def literal_assertions(lit: int, own: str, other, sel: int):
+    """Assertions attached to a literal statement ``own = <literal>``.  0 none; 1 on its own variable;
+    2 on a field of the other (object) variable -- what the observer's watch list yields after every
+    binding statement; 3 on a static field of the module; 4 watch list + module field + isinstance of the
+    other variable; 5 own variable + watch list."""
+    own_a = []
+    if lit == 1:
+        own_a = [ass.FloatAssertion(own, -2.5)]
+    elif lit in (0, 2):
+        own_a = [ass.ObjectAssertion(own, pick_value(lit))]
+    elif lit == 5:
+        own_a = [ass.ObjectAssertion(own, None)]
+    else:
+        own_a = [ass.CollectionLengthAssertion(own, 3 if lit == 3 else 1)]
+    watch = [ass.ObjectAssertion(f"{other}.count", 3)] if other else []
+    field = [ass.ObjectAssertion(f"{ALIAS}.FIELD", 1)]
+    inst = [ass.IsInstanceAssertion(other, MODULE, "Box")] if other else []
+    if sel == 1:
+        return own_a
+    if sel == 2:
+        return watch
+    if sel == 3:
+        return field
+    if sel == 4:
+        return watch + field + inst
+    if sel == 5:
+        return own_a + watch
+    return []
+
+
+def pick_value(lit: int):
+    return _LIT_VALUES[lit]
+
+
+def run_literal(post, first, lit, sel, tail) -> bool:
+    """``first``: the literal statement is the first statement (``v0 = <lit>``), else it follows
+    ``v0 = C19_sut_.make()`` as ``v1 = <lit>``.  ``tail``: 0 nothing follows; 1 ``C19_sut_.make()``;
+    2 a call reading the object variable (or, if ``first``, the literal's variable); 3 a call reading the
+    literal's variable; 4 a call reading both."""
+    test_case = tc.TestCase()
+    spec = []
+    src, tp = LITERALS[lit]
+    if first:
+        own, other = "v0", None
+    else:
+        own, other = "v1", "v0"
+        test_case.add_statement(tc.Statement(node=NODES[0, 0, True], bound_variable="v0"))
+        spec.append({"call": CALLS[0, 0], "asserts": [], "raises": None})
+    assertions = literal_assertions(lit, own, other, sel)
+    test_case.add_statement(tc.Statement(node=LIT_NODES[lit, own], bound_variable=own, bound_type=tp, assertions=list(assertions)))
+    spec.append({"call": src, "asserts": [_render(a) for a in assertions], "raises": None, "optional": True})
+    if tail:
+        if first:
+            call = (None, f"{ALIAS}.make()", f"{ALIAS}.g(v0)", f"{ALIAS}.g(v0)", f"{ALIAS}.h(v0, v0)")[tail]
+        else:
+            call = (None, f"{ALIAS}.make()", f"{ALIAS}.g(v0)", f"{ALIAS}.g(v1)", f"{ALIAS}.h(v0, v1)")[tail]
+        test_case.add_statement(tc.Statement(node=_parse(call)))
+        spec.append({"call": call, "asserts": [], "raises": None})
+    try:
+        _process(test_case, post)
+        func, _used = TestSuiteWriter()._build_test_function(0, test_case, [None] * test_case.size())  # noqa: SLF001
+    except Exception as e:  # noqa: BLE001
+        return fail(f"export raised {type(e).__name__}: {e}")
     return check_function(func, spec)
